@@ -75,6 +75,23 @@ func aimedAMs(caps amCaps) []*amSchema {
 		)},
 	))
 
+	// 12. union branches that share non-string constants next to their string discriminator; several unions, since
+	// whatever is inferred for a union is inferred independently for each
+	if caps.DiscUnions && caps.Consts && caps.NonStringConst {
+		wire := &amObject{"Wire", st(fld("kind", true, konst("wire")), fld("version", true, konst(int64(1))), fld("stable", true, konst(true)),
+			fld("gauge", true, strLen(1, 6)))}
+		pipe := &amObject{"Pipe", st(fld("kind", true, konst("pipe")), fld("version", true, konst(int64(1))), fld("stable", true, konst(true)),
+			fld("width", true, strLen(2, 4)))}
+		objs := []*amObject{wire, pipe}
+		var flds []*amField
+		for _, n := range []string{"LinkA", "LinkB", "LinkC", "LinkD"} {
+			objs = append(objs, &amObject{n, &amType{K: "union", Disc: "kind", MinLen: -1, MaxLen: -1, Branches: []*amType{rf("Wire"), rf("Pipe")}}})
+			flds = append(flds, fld(lowerFirst(n), true, rf(n)))
+		}
+		objs = append(objs, &amObject{"Links", st(flds...)})
+		out = append(out, mk(objs...))
+	}
+
 	// 3. date-time in every position
 	if caps.DateTime {
 		out = append(out, mk(&amObject{"Times", st(
@@ -204,6 +221,19 @@ func aimedAMs(caps amCaps) []*amSchema {
 		&amObject{"AliasTwo", rf("AliasOne")},
 		&amObject{"ChainedRequired", st(fld("direct", true, rf("AliasTwo")))},
 	))
+	// 11. named plain scalars (`type Label string`) referenced by optional and required members: the documents hold
+	// the scalars' zero values too ("", 0, false), which an `omitempty` non-pointer field would drop
+	out = append(out, mk(
+		&amObject{"Label", ty("string")},
+		&amObject{"Count", tyw("int", intW)},
+		&amObject{"Ratio", tyw("float", fltW)},
+		&amObject{"Flag", ty("bool")},
+		&amObject{"Named", st(
+			fld("label", false, rf("Label")), fld("count", false, rf("Count")),
+			fld("ratio", false, rf("Ratio")), fld("flag", false, rf("Flag")),
+			fld("labelReq", true, rf("Label")), fld("countReq", true, rf("Count")), fld("flagReq", true, rf("Flag")),
+		)},
+	))
 	// 9. every scalar kind and width, nullable, required and optional
 	if caps.Nullable {
 		var flds []*amField
@@ -226,6 +256,18 @@ func aimedAMs(caps amCaps) []*amSchema {
 			add("t", ty("datetime"))
 		}
 		out = append(out, mk(&amObject{"Nullables", st(flds...)}))
+		if caps.Format == "jsonschema" {
+			// the `"type": [T, "null"]` spelling, null listed last and first
+			flds = nil
+			for _, style := range []string{"last", "first"} {
+				for _, k := range []string{"int", "float", "string", "bool"} {
+					t := nullable(ty(k))
+					t.NullStyle = style
+					flds = append(flds, fld(k+"Null"+upperFirst(style)+"Req", true, t), fld(k+"Null"+upperFirst(style)+"Opt", false, t))
+				}
+			}
+			out = append(out, mk(&amObject{"TypeArrays", st(flds...)}))
+		}
 	}
 	return out
 }
